@@ -18,4 +18,15 @@ PROPS = {
         'trusted_base': ['theorems in coq/props/C19.v about coq/theories/Timeout.v'],
         'assumptions': COMMON_ASSUME + ['base timeout positive and at most MaxInt64 ns', 'time.AfterFunc fires once, not before its duration (Go runtime)'],
     },
+    'C17': {
+        'engines': [{'name': 'filter'}],
+        'trusted_base': ['theorems in coq/props/C17.v about coq/theories/Filter.v (proofs in FilterFacts.v)'],
+        'assumptions': COMMON_ASSUME + ['heights passed to onNewConsensusRound only take effect when increasing (SetHeightAndResetView, proved in C13)', 'reading of the statement: "before it" = before the node starts H (DESIGN.md C17)'],
+    },
+    'C15': {
+        'engines': [{'name': 'registry'}],
+        'trusted_base': ['theorems in coq/props/C15.v about coq/theories/Contexts.v (proofs in ContextsFacts.v)'],
+        'assumptions': COMMON_ASSUME + ['context.WithCancel semantics of the Go standard library (a child is done iff it or its parent was cancelled)'],
+        'notes': ['part (a) registry laws: proved for all op sequences; part (b) loop discipline: see Loops model when present'],
+    },
 }
